@@ -49,6 +49,7 @@ class _Ctx:
     ep = None         # the Endpoint whose code is running
     readable = None   # which fake socket the next select() reports ('udp', 'xfrm', 'control', None)
     select_calls = 0
+    select_hook = None    # continuous mode: callable that blocks until the next event and returns the readable socket
     nonce_len = 32
     uniform_hi = False
     randint_hi = False
@@ -336,10 +337,15 @@ class _FakeConn:
 
 
 def _fake_select(rlist, wlist, xlist, timeout=None):
-    CTX.select_calls += 1
-    if CTX.select_calls > 1:
-        raise StopLoop()
-    want = CTX.readable
+    hook = CTX.select_hook
+    if hook is not None:
+        # continuous mode (harness/continuous.py): the loop is never left; the daemon's thread parks here between passes
+        want = hook()
+    else:
+        CTX.select_calls += 1
+        if CTX.select_calls > 1:
+            raise StopLoop()
+        want = CTX.readable
     if want is None:
         return [], [], []
     kind, addr = want
